@@ -69,6 +69,12 @@ func (fc *FnCtx) convertCode(st *State, v Val, to types.Type, call *ast.CallExpr
 		}
 		n := app("gs.len", v.T)
 		sl := Val{T: fc.define("slice", "Slice", fc.makeSliceUninit(st, s.Elem(), n, n)), Ty: to}
+		if _, esort := fc.elemsKey(s.Elem()); !strings.Contains(esort, "BitVec 8") {
+			// bytes are mathematical integers in this arithmetic mode: the content of the fresh slice is left
+			// unspecified (an over-approximation; `arith mixed` gives the byte-wise definition)
+			fc.dropped["[]byte(string): content of the converted slice not modelled in arith int"] = true
+			return sl
+		}
 		a := app("select", fc.heapGet(st, "E$uint8", fmt.Sprintf("(Array Int (Array %s (_ BitVec 8)))", fc.I())), app("s-arr", sl.T))
 		fc.assume(st, fmt.Sprintf("(forall ((i %s)) (! (=> (and %s %s) (= (select %s i) (gs.at %s i))) :pattern ((select %s i))))", fc.I(), fc.leIdx(fc.idxLit(0), "i"), fc.ltIdx("i", n), a, v.T, a))
 		return sl
